@@ -18,7 +18,8 @@ RULE = ("finite domain enumerated completely: (a) firmware - unmodified mframe_s
         "(c) continuous operation: seven realistic task sets (up to all 29 tasks) enabled once and walked frame by frame for a cycle "
         "+ 3000 frames across the hyperframe wrap without any reset - the triggers must be the union of the per-task triggers; "
         "(d) trxcon lookup histories: descending order, repeated lookups and a generated sequence (VERIF_SEED; runs on one combination / one "
-        "timeslot) - every lookup must return what the same lookup returned in the first pass. "
+        "timeslot) - every lookup must return what the same lookup returned in the first pass; the firmware side is built and enumerated "
+        "twice: with the host's signed char and with -funsigned-char (the ARM ABI of the real target). "
         "Each compared row / table row is a distinct evaluation; non-trivial = all rows (distinct points of the finite domain).")
 LEVEL = "exploration"
 ASSUMPTIONS = ["the correspondence table (which task is which logical channel) is fixed by the harness from the 3GPP names",
